@@ -432,7 +432,7 @@ def window_shard(rec, shard):
         steps = min(LAST['steps'], 140)          # both senders are done well before that; the rest is the receiver
         for i in range(steps):
             for j in range(i + 1, min(i + 25, steps + 20)):
-                for a, b in ((1, 1), (1, 2)):
+                for a, b in (((1, 1), (1, 2)) if which < 2 else ((1, 1), (1, 2), (2, 1), (2, 2))):
                     idx += 1
                     if idx % n == k:
                         do(rec, {'prog': prog, 'sched': [[i, a], [j, b]], 'first': first})
